@@ -78,7 +78,7 @@ Next == /\ tpos <= Len(Rec)
         /\ tbad' = IF tm'.ok \/ Len(tbad) >= 200 THEN tbad
                    ELSE Append(tbad, [seq |-> Rec[tpos].seq, op |-> Rec[tpos].op, why |-> Why(Rec[tpos])])
         /\ tcov' = LET e == Rec[tpos]                                             \* input-class counters (coverage only, never a verdict)
-                   IN IF e.op \in {"f.mul", "f.add", "f.sub", "f2.mul"} /\ ~e.panic /\ tm'.ok
+                   IN IF e.op \in {"f.mul", "f.add", "f.sub", "f2.mul", "x.fq4.mul"} /\ ~e.panic /\ tm'.ok
                       THEN LET cs == ClsOf(e) IN [c \in CovNames |-> IF c \in cs THEN tcov[c] + 1 ELSE tcov[c]]
                       ELSE tcov
 Done == tpos = Len(Rec) + 1 => PrintT(<<"DONE", ToJson([n |-> Len(Rec), consumed |-> tpos - 1, bad |-> tbad, cov |-> tcov])>>)
